@@ -248,8 +248,8 @@ def main(ctx: Ctx) -> int:
                   "allowed": list(ch["species"]["allowed"]), "required": list(ch["species"]["required"]), "files": list(ch["network"]["files"]),
                   "formats": list(ch["network"]["formats"]), "heating": list(ch["thermal"]["heating"]), "cooling": list(ch["thermal"]["cooling"]),
                   "replacement": dict(ch["element"]["replacement"]), "binding": dict(ch["species"]["binding_energy"]),
-                  "yield": dict(ch["species"]["photon_yield"]), "shielding": dict(ch["shielding"]), "rate_modifier": dict(ch["rate_modifier"]),
-                  "ode_modifier": om_items({k3: dict(v3) for k3, v3 in dict(ch["ode_modifier"]).items()}),
+                  "yield": dict(ch["species"]["photon_yield"]), "shielding": dict(ch["shielding"]), "rate_modifier": dict(ch.get("rate_modifier", {"<missing>": ""})),
+                  "ode_modifier": om_items({k3: dict(v3) for k3, v3 in dict(ch.get("ode_modifier", {})).items()}),   # (a table that is gone reads as empty)
                   "surface": ch["symbol"]["surface"], "bulk": ch["symbol"]["bulk"], "grain": ch["symbol"]["grain"], "grain_model": ch["grain"]["model"],
                   "solver": conf["ODEsolver"]["solver"], "device": conf["ODEsolver"]["device"], "method": conf["ODEsolver"]["method"]}
             ev.append({"act": "Toml", "fields": decode(tv)})
